@@ -91,16 +91,20 @@ func runCommit(c CommitCase) *vkit.Outcome {
 		done.Wait()
 		if got := st.commitSeq.Load(); got != uint64(maxID) {
 			o.Failf("C02", "stream-commit-frontier-moved-back", "after concurrent commits of sequence ids %v (one list per goroutine) the stream's commit frontier is %d, highest committed id is %d (repetition %d): the stream can never finish detaching", c.Workers, got, maxID, rep)
+			// the same history for C04 / C05: events that arrive for this stream afterwards are taken from
+			// the pool and never handed to a processor, so they are never finalized
+			o.Failf("C04", "stream-commit-frontier-moved-back", "stream.commit: frontier %d below the highest committed id %d after concurrent commits %v: the stream stays detaching, later events are never processed", got, maxID, c.Workers)
+			o.Failf("C05", "stream-commit-frontier-moved-back", "stream.commit: frontier %d below the highest committed id %d after concurrent commits %v: later events of the stream stay out of the pool for ever", got, maxID, c.Workers)
 			break
 		}
 	}
 	if active >= 2 {
-		o.Nontrivial("C02")
+		o.Nontrivial("")
 		o.Class("concurrent-committers")
 	}
 	return o
 }
 
-var propCommit = vkit.NewProp([]string{"C02", "C04"}, "c02streamcommit", genCommit, runCommit)
+var propCommit = vkit.NewProp([]string{"C02", "C04", "C05"}, "c02streamcommit", genCommit, runCommit)
 
 func TestVerifC02StreamCommit(t *testing.T) { propCommit.Check(t) }
